@@ -90,7 +90,7 @@ Lemma closed_pair : forall m s rs,
     (v_flag vt = false -> forall b, In b (row_pts vt vr) ->
        match lookup Z (v_trans vt) b, lookup R (v_trans vr) b with
        | None, None => True
-       | Some s', Some r' => s' <> 0 /\ In (m, s', r') visited
+       | Some s', Some r' => In (m, s', r') visited
        | _, _ => False
        end).
 Proof.
@@ -110,18 +110,15 @@ Proof.
   | (let (_, _) := if forallb ?f ?l then _ else _ in _) = true =>
     destruct (forallb f l) eqn:Hall
   end.
-  2:{ match type of H with
-      | (let (_, _) := if ?c then _ else _ in _) = true => destruct c; discriminate
-      end. }
+  2:{ discriminate. }
   rewrite forallb_forall in Hall. specialize (Hall b Hb). cbv beta in Hall.
   rewrite forallb_forall in H.
   destruct (lookup Z (v_trans vt) b) as [s'|] eqn:Et;
     destruct (lookup R (v_trans vr) b) as [r'|] eqn:Er; try discriminate; [|exact I].
-  destruct (s' =? 0) eqn:Es; [discriminate|].
-  split; [lia|]. apply existsb_pair_in.
+  apply existsb_pair_in.
   apply (H (b, (m, s', r'))).
   apply in_flat_map. exists b. split; [exact Hb|].
-  rewrite Et, Er, Es. left. reflexivity.
+  rewrite Et, Er. left. reflexivity.
 Qed.
 
 (* ---------- L4 ---------- *)
@@ -237,7 +234,7 @@ Proof.
   rewrite Elt, Elr. specialize (Hstep eq_refl b Hb).
   destruct (lookup Z (v_trans vt) b) as [s'|]; destruct (lookup R (v_trans vr) b) as [r'|];
     try contradiction; [|exact Hact].
-  destruct Hstep as [Hs' Hvis'].
+  rename Hstep into Hvis'.
   assert (Hw : rel4w (Build_gsm Z tok s' false a md st) (Build_gsm R tok r' false a md st)).
   { unfold rel4w; g_cbn. repeat split; assumption. }
   split; [reflexivity|]. split; [exact Hw|]. intros _ _. split; [exact Hw|]. g_cbn. exact Hvis'.
